@@ -13,6 +13,7 @@
     lay.blank <src> <pos> <w>                 the checker of C13.layout_blank_by_position (blankInsertOK)               → true|false
     lay.comment <src> <pos> <w> <body>        commentInsertOK with the definition's first comment pair                → true|false
     lay.cline <src> <pos> <ind> <body>        commentLineInsertOK                                                      → true|false
+    lay.tcomment <src> <pos> <body>           commentTightOK (comment directly after a token), first comment pair        → true|false
     lay.tail <a> <run> <run'>                 the checker of C13.layout_tail_by_position (tailOK for both tails)        → true|false
 
   tok = <type value>:<hex string>:<bl>,<bc>,<el>,<ec>
@@ -22,6 +23,7 @@ import Tranp.Model.Lexer
 import Tranp.Generated.TokenDef
 import Tranp.Lemmas.Lexer
 import Tranp.Lemmas.LexerTail
+import Tranp.Lemmas.LexerTight
 
 namespace Tranp.Driver.Lex
 open Tranp Tranp.Lexer Tranp.Driver
@@ -103,6 +105,10 @@ def step (st : St) : List String → St × String
     match Str.unhex src, pos.toNat?, Str.unhex w, Str.unhex body, st.d.comment.head? with
     | some s, some p, some w, some b, some pair => (st, toString (commentInsertOK st.d s p w b pair))
     | _, _, _, _, _ => (st, "bad-op")
+  | ["lay.tcomment", src, pos, body] =>
+    match Str.unhex src, pos.toNat?, Str.unhex body, st.d.comment.head? with
+    | some s, some p, some b, some pair => (st, toString (commentTightOK st.d s p b pair))
+    | _, _, _, _ => (st, "bad-op")
   | ["lay.tail", a, run, run'] =>
     match Str.unhex a, Str.unhex run, Str.unhex run' with
     | some a, some r, some r' => (st, toString (tailOK st.d a r && tailOK st.d a r'))
